@@ -484,6 +484,9 @@ func (r *FnRun) appendTyped(st *State, s PSlice, cc *ssa.CallCommon, dst *ssa.Ca
 			r.addFact(tb.Not(tb.ULt(tb.Sub(np, kr[0]), kr[1])))
 		}
 	}
+	if len(r.root.caseSplits) == 0 && !fits.IsConst() {
+		r.root.caseSplits = append(r.root.caseSplits, fits)
+	}
 	rp := tb.Ite(fits, s.Ptr, np)
 	// on reallocation the old elements are copied: per leaf array a quantified copy fact
 	pre := st.Clone()
